@@ -367,10 +367,8 @@ func c14AuthMatrix(c *fw.Ctx, cell c14Flags) {
 // ------------------------------------------------------------------------------------------
 
 func c14RtspAuth(c *fw.Ctx, method int) {
+	// (RFC 7617: the user-id cannot contain ':', the password can - the first colon separates them)
 	user, pass := "verifuser", "p@ss:word"
-	if method == 0 {
-		pass = "passw0rd" // Basic credentials with ':' in the password are ambiguous for user:pass splitting
-	}
 	conf := srv.Conf{Rtsp: true, RtspAuthEnable: true, RtspAuthMethod: method, RtspUser: user, RtspPass: pass, Flv: true}
 	s, stop := c14StartServer(c, conf, "rtspauth")
 	if s == nil {
